@@ -1,4 +1,4 @@
 INIT GenInit
 NEXT GenNext
-CONSTANTS MaxFull = 4 MaxLen = 5 Part = 0 NParts = 8
+CONSTANTS MaxFull = 3 MaxLen = 5 Part = 0 NParts = 8
 CHECK_DEADLOCK FALSE
